@@ -201,6 +201,27 @@ let run_case (line : string) =
            out "ok "; out (string_of_int (int_of_n rc.Collection.rd_mid));
            L.iter (fun rd -> outc (); out (string_of_int (int_of_n rd.Collection.rd_mid));
                     out ":"; out (class_name rd.Collection.rd_class)) others))
+   | "access" ->
+     (* access <msg> : what the message object exposes and what inspect() prints *)
+     let m = rd_xml r in
+     (match Classify.classify m with
+      | Coq_inl e -> out "classerr "; out (exn_name e)
+      | Coq_inr k ->
+        (match Messages.base_of k m with
+         | None -> out "nobase"
+         | Some b ->
+           out (class_name k);
+           let ex = Inspect.exposed k b in
+           out " A"; out (string_of_int (L.length ex));
+           L.iter (fun (name, ids) -> outc (); pr_str name; outc (); out (string_of_int (L.length ids));
+                    L.iter (fun i -> outc (); pr_ostr i) ids) ex;
+           let xs = Inspect.exposed_xml k b in
+           out " X"; out (string_of_int (L.length xs));
+           L.iter (fun x -> outc (); pr_xml x) xs;
+           (match Inspect.inspect k b with
+            | Coq_inl e -> out " Ierr "; out (exn_name e)
+            | Coq_inr ls -> out " I"; out (string_of_int (L.length ls));
+              L.iter (fun l -> outc (); pr_str l) ls)))
    | "coll" ->
      let o = rd_oracles r in
      let inc = rd_bool r in
